@@ -377,10 +377,11 @@ def finish (a : AppId) (isHead : Bool) (body : String) (k : Prog) : Prog :=
     .step a (.fget .response "_status_code" rTmp) fun r2 =>
     cont (match r2 with | .val (.int i) => i == 204 || i == 304 | _ => false)
 
-/-- one handler statement; `nest` serves a nested request (one level less of nesting) -/
-def hop (nest : Req → Prog → Prog) (a : AppId) : HOp → Prog → Prog
-  | .path, k => reqPath a .request fun v => obsRead a v k
-  | .method, k => envGet a .request "REQUEST_METHOD" fun v => obsRead a v k
+/-- one handler statement; `nest` serves a nested request (one level less of nesting); `cs` are the
+copies the handler has made so far (the handler's list `copies`) -/
+def hop (nest : Req → Prog → Prog) (a : AppId) (cs : List Nat) : HOp → (List Nat → Prog) → Prog
+  | .path, k => reqPath a .request fun v => obsRead a v (k cs)
+  | .method, k => envGet a .request "REQUEST_METHOD" fun v => obsRead a v (k cs)
   | .query q, k =>
     cacheIn a .request 0 "ombott.request.query"
       (fun ret =>
@@ -388,40 +389,40 @@ def hop (nest : Req → Prog → Prog) (a : AppId) : HOp → Prog → Prog
         -- self.environ['ombott.request.get'] = ret
         .step a (.fget .request "environ" rTmp) fun _ =>
         .step a (.dOp rTmp (.set "ombott.request.get" (.str "<query>"))) fun _ => ret (.str "<query>"))
-      fun _ => .step a (.dOp (rCache 0) (.get ("#q:" ++ q))) fun r => obsRead a (resVal r) k
+      fun _ => .step a (.dOp (rCache 0) (.get ("#q:" ++ q))) fun r => obsRead a (resVal r) (k cs)
   | .cookie c, k =>
     cacheIn a .request 0 "ombott.request.cookies"
       (fun ret => envGet a .request "HTTP_COOKIE" fun _ => ret (.str "<cookies>"))
-      fun _ => .step a (.dOp (rCache 0) (.get ("#c:" ++ c))) fun r => obsRead a (resVal r) k
+      fun _ => .step a (.dOp (rCache 0) (.get ("#c:" ++ c))) fun r => obsRead a (resVal r) (k cs)
   | .header _ key, k =>
     cacheIn a .request 0 "ombott.request.headers"
       (fun ret =>
         -- WSGIHeaderDict(self.environ)
         .step a (.fget .request "environ" rWsgiHd) fun _ => ret (.str "<headers>"))
-      fun _ => .step a (.dOp (rCache 0) (.get key)) fun r => obsRead a (resVal r) k
-  | .envGet key, k => envGet a .request key fun v => obsRead a v k
+      fun _ => .step a (.dOp (rCache 0) (.get key)) fun r => obsRead a (resVal r) (k cs)
+  | .envGet key, k => envGet a .request key fun v => obsRead a v (k cs)
   | .body, k => reqBodyObj a .request 0 fun _ =>
-      .step a (.dOp (rCache 0) (.get "#body")) fun r => obsRead a (resVal r) k
+      .step a (.dOp (rCache 0) (.get "#body")) fun r => obsRead a (resVal r) (k cs)
   | .form f, k =>
     cacheIn a .request 0 "ombott.request.forms"
       (fun ret =>
         reqPost a .request 1 fun _ =>
         -- return self.environ['ombott.request.forms']
         environGet a .request "ombott.request.forms" fun v => ret v)
-      fun _ => .step a (.dOp (rCache 0) (.get ("#f:" ++ f))) fun r => obsRead a (resVal r) k
-  | .url, k => reqUrl a .request 0 fun v => obsRead a v k
-  | .status code line, k => setStatus a code line k
-  | .rdStatus, k => .step a (.fget .response "_status_line" rTmp) fun r => obsRead a (resVal r) k
-  | .setHdr n v, k => hdOp a (.set n (.str v)) fun _ => k
-  | .addHdr n v, k => hdOp a (.append n v) fun _ => k
-  | .rdHdr n, k => hdOp a (.get n) fun r => obsRead a (resVal r) k
+      fun _ => .step a (.dOp (rCache 0) (.get ("#f:" ++ f))) fun r => obsRead a (resVal r) (k cs)
+  | .url, k => reqUrl a .request 0 fun v => obsRead a v (k cs)
+  | .status code line, k => setStatus a code line (k cs)
+  | .rdStatus, k => .step a (.fget .response "_status_line" rTmp) fun r => obsRead a (resVal r) (k cs)
+  | .setHdr n v, k => hdOp a (.set n (.str v)) fun _ => k cs
+  | .addHdr n v, k => hdOp a (.append n v) fun _ => k cs
+  | .rdHdr n, k => hdOp a (.get n) fun r => obsRead a (resVal r) (k cs)
   | .setCookie n rendered, k =>
     -- if not self._cookies: self._cookies = SimpleCookie()
     .step a (.fget .response "_cookies" rCookies) fun r =>
       let set : Prog :=
         -- self._cookies[name] = value
         .step a (.fget .response "_cookies" rCookies) fun _ =>
-        .step a (.dOp rCookies (.set n (.str rendered))) fun _ => k
+        .step a (.dOp rCookies (.set n (.str rendered))) fun _ => k cs
       match r with
       | .ref =>
         .step a (.dOp rCookies .items) fun ri =>
@@ -433,28 +434,34 @@ def hop (nest : Req → Prog → Prog) (a : AppId) : HOp → Prog → Prog
       | _ =>
         .step a (.dNew rCookies []) fun _ =>
         .step a (.fset .response "_cookies" (.reg rCookies)) fun _ => set
-  | .ctype v, k => hdOp a (.set "Content-Type" (.str v)) fun _ => k
+  | .ctype v, k => hdOp a (.set "Content-Type" (.str v)) fun _ => k cs
   | .copy, k =>
     -- copy = self.__class__(self.environ.copy(), config=self.config)
     .step a (.fget .request "environ" rTmp) fun _ =>
     .step a (.dCopy rTmp rCopyEnv) fun _ =>
     .step a .newCopy fun r =>
       let n := match r with | .val (.int i) => i.toNat | _ => 0
-      requestInit a (.copy n) rCopyEnv k
-  | .cpath n, k => reqPath a (.copy n) fun v => obsRead a v k
-  | .cset n key v, k =>
+      requestInit a (.copy n) rCopyEnv (k (cs ++ [n]))
+  | .cpath i, k => reqPath a (.copy (cs.getD i 0)) fun v => obsRead a v (k cs)
+  | .cset i key v, k =>
+    let n := cs.getD i 0
     -- BaseRequest.__setitem__
     envGet a (.copy n) "ombott.request.readonly" fun _ =>
     .step a (.fget (.copy n) "environ" rTmp) fun _ =>
     .step a (.dOp rTmp (.get key)) fun r =>
-      if r == .val (.str v) then k
+      if r == .val (.str v) then k cs
       else
         .step a (.dOp rTmp (.set key (.str v))) fun _ =>
         -- emit('env_changed') -> _on_env_changed: env = request.environ; pops
         .step a (.fget (.copy n) "environ" rTmp) fun _ =>
-        .step a (.dOp rTmp (.pop (if key == "QUERY_STRING" then "ombott.request.query" else "ombott.request.none"))) fun _ => k
-  | .nested r, k => nest r k
-  | .construct b, k => constructApp b k
+        .step a (.dOp rTmp (.pop (if key == "QUERY_STRING" then "ombott.request.query" else "ombott.request.none"))) fun _ => k cs
+  | .nested r, k => nest r (k cs)
+  | .construct b, k => constructApp b (k cs)
+
+/-- the statements of a handler in order -/
+def hops (nest : Req → Prog → Prog) (a : AppId) : List HOp → List Nat → Prog → Prog
+  | [], _, k => k
+  | op :: rest, cs, k => hop nest a cs op fun cs' => hops nest a rest cs' k
 
 def outOf : Outcome → Out
   | .ret s => .text s
@@ -492,7 +499,7 @@ def serve : Nat → Req → Prog → Prog
         .step a (.dOp rEnviron (.set "ombott.route" (.str "<route>"))) fun _ =>
         .step a (.dOp rEnviron (.set "route.url_args" (.str "<kwargs>"))) fun _ =>
         .step a (.dOp rEnviron (.set "route.hooks" (.str "<hooks>"))) fun _ =>
-        ops.foldr (hop (serve fuel) a) (castAndFinish (outOf out))
+        hops (serve fuel) a ops [] (castAndFinish (outOf out))
       | .notFound line text => castAndFinish (.err 404 line text [])
       | .notAllowed line text allow => castAndFinish (.err 405 line text [("Allow", allow)])
       | .badPath _ => k
